@@ -5,11 +5,12 @@
 import AsamCmp.Packet
 namespace AsamCmp
 
-/-- `CanPayloadBase::encodeDlc` -/
+/-- `CanPayloadBase::encodeDlc`: a CAN FD data field holds 12, 16, 20, 24, 32, 48 or 64 bytes (DLC 9..15); a length between two
+    steps gets the code of the next larger one -/
 def dlcOf (n : Nat) : Nat :=
   if n ≤ 8 then n
-  else if n = 12 then 9 else if n = 16 then 10 else if n = 20 then 11 else if n = 24 then 12
-  else if n = 32 then 13 else if n = 48 then 14 else if n = 64 then 15 else 0
+  else if n ≤ 12 then 9 else if n ≤ 16 then 10 else if n ≤ 20 then 11 else if n ≤ 24 then 12
+  else if n ≤ 32 then 13 else if n ≤ 48 then 14 else 15
 
 /-- `Payload::setData<Header>` : resize to header + n, copy the data behind the header -/
 def setTail (hdr : Nat) (b : Bytes) (d : Bytes) : Bytes := (resize b hdr).take hdr ++ d
